@@ -42,6 +42,10 @@ pub enum Gap {
     Yield(u32),
     SleepMs(u64),
     AdvanceMs(u64),
+    /// send at once, and hold the server's main loop back (long stall) at its `n`-th acquisition
+    /// of `analysis.write` from now: the main loop descheduled in the middle of the handler this message
+    /// starts (e.g. between a decision taken under a read lock and the write that acts on it)
+    StallMainAt { n: u32 },
     /// wait until a background task of the server produces lock-trace event `what`
     /// (`controller::TRIGGERS`), for at most `max_ms` of simulated time, then act at once: the
     /// step lands right after a snapshot / inside a critical section instead of at a blind offset
@@ -56,6 +60,9 @@ pub enum Gap {
         /// triggering task is held back inside its critical section
         #[serde(default)]
         advance_ms: u64,
+        /// after the event, hold the server's main loop back at its n-th lock acquisition (0 = no)
+        #[serde(default)]
+        main_stall_at: u32,
     },
 }
 
@@ -368,7 +375,10 @@ pub fn profile(prop: &str) -> Profile {
 
 fn gen_gap(r: &mut Rng, p: &Profile, interval: u64) -> Gap {
     if p.trace_triggers > 0 && r.below(1000) < p.trace_triggers as u64 {
-        return Gap::Until { what: r.usize_below(crate::controller::TRIGGERS.len()), max_ms: *r.pick(&[20, 600, 2500]), hold: *r.pick(&[0, 0, 1, 2, 3]), advance_ms: *r.pick(&[0, 0, 0, 500, 2000]) };
+        return Gap::Until { what: r.usize_below(crate::controller::TRIGGERS.len()), max_ms: *r.pick(&[20, 600, 2500]), hold: *r.pick(&[0, 0, 1, 2, 3]), advance_ms: *r.pick(&[0, 0, 0, 500, 2000]), main_stall_at: *r.pick(&[0, 0, 0, 1, 2]) };
+    }
+    if p.trace_triggers > 0 && r.below(1000) < (p.trace_triggers / 2) as u64 {
+        return Gap::StallMainAt { n: r.range(1, 3) as u32 };
     }
     match r.weighted(&p.g) {
         0 => Gap::Zero,
@@ -481,7 +491,12 @@ pub fn generate(prop: &str, seed: u64) -> RunSpec {
     // document open (often one that does not exist on disk), a reload trigger, and the close of
     // that document aimed at the reload window.
     if p.reload_bursts && r.chance(1, 3) {
-        let d = (0..ndocs).find(|i| docs[*i].in_workspace && !disk[*i] && r.chance(2, 3)).unwrap_or_else(|| r.usize_below(ndocs));
+        // the document: often one that does not exist on disk (its close removes it), otherwise
+        // often one that does (its close must leave the file the reload loads alone)
+        let want_on_disk = r.chance(1, 3);
+        let d = (0..ndocs)
+            .find(|i| docs[*i].in_workspace && disk[*i] == want_on_disk && r.chance(2, 3))
+            .unwrap_or_else(|| r.usize_below(ndocs));
         if docs[d].in_workspace {
             ver[d] += 1;
             script.push(Step { gap: gen_gap(&mut r, &p, interval), action: Action::Open { doc: d, text: doc_text(d, ver[d], r.below(p.flavours) as u32) } });
@@ -496,13 +511,24 @@ pub fn generate(prop: &str, seed: u64) -> RunSpec {
                 cfg_version += 1;
                 script.push(Step { gap: Gap::SleepMs(r.range(1, 3000)), action: Action::ChangeConfig { version: cfg_version } });
             }
+            let base = if emmyrc { 2000u64 } else { 0 };
+            if r.chance(1, 4) || (disk[d] && r.chance(1, 2)) {
+                // an edit right after the reload cleared its workspaces (the reload is held back
+                // before it loads them again), then the close, whose handler is descheduled
+                // between its look at the analysis and the write that acts on it
+                ver[d] += 1;
+                script.push(Step {
+                    gap: Gap::Until { what: 1, max_ms: base + 3000, hold: *r.pick(&[1, 2]), advance_ms: 0, main_stall_at: 0 },
+                    action: Action::Change { doc: d, text: doc_text(d, ver[d], r.below(p.flavours) as u32) },
+                });
+                script.push(Step { gap: Gap::StallMainAt { n: *r.pick(&[1, 2, 2, 2]) }, action: Action::Close { doc: d } });
+            } else {
             if r.chance(1, 2) {
                 ver[d] += 1;
                 script.push(Step { gap: Gap::Yield(r.range(1, 4) as u32), action: Action::Change { doc: d, text: doc_text(d, ver[d], r.below(p.flavours) as u32) } });
             }
-            let base = if emmyrc { 2000u64 } else { 0 };
             let gap = match r.below(9) {
-                7 | 8 => Gap::Until { what: *r.pick(&[0, 0, 1, 2, 3, 10]), max_ms: base + 3000, hold: *r.pick(&[0, 1, 2, 3]), advance_ms: 0 },
+                7 | 8 => Gap::Until { what: *r.pick(&[0, 0, 1, 2, 3, 10]), max_ms: base + 3000, hold: *r.pick(&[0, 1, 2, 3]), advance_ms: 0, main_stall_at: *r.pick(&[0, 0, 0, 1, 1, 2]) },
                 0 => Gap::SleepMs(base + 1),
                 1 => Gap::SleepMs(base + r.range(2, 40)),
                 2 => Gap::SleepMs(base + r.range(40, 300)),
@@ -512,6 +538,7 @@ pub fn generate(prop: &str, seed: u64) -> RunSpec {
                 _ => Gap::SleepMs(base.max(1)),
             };
             script.push(Step { gap, action: Action::Close { doc: d } });
+            }
         }
     }
     // documents that are left alone for the rest of the script (so that the state a timer race
@@ -663,7 +690,7 @@ pub fn generate(prop: &str, seed: u64) -> RunSpec {
         if let (Some(id), true) = (requested_id, p.w_cancel > 0) {
             if r.chance(1, 6) {
                 script.push(Step {
-                    gap: Gap::Until { what: *r.pick(&[9, 11, 12, 12]), max_ms: *r.pick(&[50, 700]), hold: *r.pick(&[0, 1, 2]), advance_ms: 0 },
+                    gap: Gap::Until { what: *r.pick(&[9, 11, 12, 12]), max_ms: *r.pick(&[50, 700]), hold: *r.pick(&[0, 1, 2]), advance_ms: 0, main_stall_at: 0 },
                     action: Action::Cancel { id },
                 });
             }
@@ -693,7 +720,7 @@ pub fn generate(prop: &str, seed: u64) -> RunSpec {
                 };
                 // a third of the races wait for the debounced task itself (it fires, takes the token
                 // table, waits for / releases the analysis read lock) instead of the wall-clock offset
-                let gap = if r.chance(1, 3) { Gap::Until { what: *r.pick(&[8, 9, 11]), max_ms: interval + 50, hold: *r.pick(&[0, 1, 2]), advance_ms: 0 } } else { Gap::SleepMs(at) };
+                let gap = if r.chance(1, 3) { Gap::Until { what: *r.pick(&[8, 9, 11]), max_ms: interval + 50, hold: *r.pick(&[0, 1, 2]), advance_ms: 0, main_stall_at: 0 } } else { Gap::SleepMs(at) };
                 script.push(Step { gap, action });
                 if r.chance(1, 2) {
                     frozen[d] = true;
@@ -726,7 +753,7 @@ pub fn generate(prop: &str, seed: u64) -> RunSpec {
                             Action::Change { doc: d, text: doc_text(d, ver[d], r.below(p.flavours) as u32) }
                         }
                     };
-                    script.push(Step { gap: Gap::Until { what: 6, max_ms: 300, hold: *r.pick(&[1, 2, 3]), advance_ms: interval + r.below(3) }, action });
+                    script.push(Step { gap: Gap::Until { what: 6, max_ms: 300, hold: *r.pick(&[1, 2, 3]), advance_ms: interval + r.below(3), main_stall_at: 0 }, action });
                     if r.chance(1, 2) {
                         frozen[d] = true;
                     }
@@ -767,7 +794,7 @@ pub fn generate(prop: &str, seed: u64) -> RunSpec {
                 let gap = if first {
                     first = false;
                     match r.below(9) {
-                        6 | 7 | 8 => Gap::Until { what: *r.pick(&[0, 0, 1, 2, 3, 10]), max_ms: base + 3000, hold: *r.pick(&[0, 1, 2, 3]), advance_ms: 0 },
+                        6 | 7 | 8 => Gap::Until { what: *r.pick(&[0, 0, 1, 2, 3, 10]), max_ms: base + 3000, hold: *r.pick(&[0, 1, 2, 3]), advance_ms: 0, main_stall_at: *r.pick(&[0, 0, 0, 1, 1, 2]) },
                         0 => Gap::SleepMs(base.saturating_sub(1).max(1)),
                         1 => Gap::SleepMs(base + 1),
                         2 => Gap::SleepMs(base + r.range(1, 60)),
@@ -780,7 +807,7 @@ pub fn generate(prop: &str, seed: u64) -> RunSpec {
                         0 => Gap::Zero,
                         1 => Gap::Yield(r.range(1, 6) as u32),
                         2 => Gap::SleepMs(r.range(1, 60)),
-                        3 => Gap::Until { what: *r.pick(&[0, 1, 2, 3, 10]), max_ms: 1500, hold: *r.pick(&[0, 1, 2]), advance_ms: 0 },
+                        3 => Gap::Until { what: *r.pick(&[0, 1, 2, 3, 10]), max_ms: 1500, hold: *r.pick(&[0, 1, 2]), advance_ms: 0, main_stall_at: *r.pick(&[0, 0, 1, 2]) },
                         _ => Gap::SleepMs(r.range(100, 1500)),
                     }
                 };
